@@ -9,7 +9,7 @@ THEOREMS = ["Props.C12.c12_roundtrip", "Props.C12.c12_pieces_shape", "Props.C12.
 def run(check, tier):
     import paths_suite as S
 
-    n = 400 if tier == "quick" else 8000
+    n = 800 if tier == "quick" else 8000
     cases = [S.gen_history(check.seed, i) for i in range(n)]
     results = run_cases("paths_suite", "case_history", cases, chunk=8)
     for res in results:
